@@ -335,7 +335,7 @@ func init() {
 	hk.Register("C19", func(ctx *engine.Ctx) {
 		scs, bounds := all(ctx.Tier)
 		for i, sc := range scs {
-			engine.ExploreS(ctx, sc, engine.SConfig{Bound: bounds[i], Shard: ctx.Shard, NShards: ctx.NShards, Deadline: ctx.Deadline})
+			engine.ExploreS(ctx, sc, engine.SConfig{BothPolicies: bounds[i] >= 0, Bound: bounds[i], Shard: ctx.Shard, NShards: ctx.NShards, Deadline: ctx.Deadline})
 		}
 	})
 	hk.Replayers["C19"] = func(ctx *engine.Ctx, rp engine.Replay) []*engine.Finding {
